@@ -217,6 +217,40 @@ def run(ctx):
               and pm.text(pm.nodes[reads[0]]["args"][1]) == "&byte_buf", "bounded-read", "loop-shape", pm.loc(ls[0]["stmt"]) if ls else pm.loc(),
               "at most %s one-byte reads per connection" % bound, "read loop is not a bounded sequence of one-byte reads")
 
+    # ------------------------------------------------ a stalled client cannot wedge a handler: the full-read/write helper retries only EINTR
+    # (the 2 s SO_RCVTIMEO / SO_SNDTIMEO surface as EAGAIN; retrying it would defeat the time-outs)
+    wf = [f for f in P.fns.values() if f.name == "wrapFull"]
+    ctx.counters["wrapFull_instances"] = len(wf)
+    ctx.floor("wrapFull_instances", 2, "instantiations of Util's wrapFull (read, write)")
+    for k_, f in enumerate(sorted(wf, key=lambda x: x.usr)):
+        ctx.use(f)
+        ls_ = loops(f)
+        if len(ls_) != 1:
+            ctx.broken("io-retries-only-EINTR:%d" % k_, "anchor", f.loc(), "expected one retry loop in wrapFull")
+            continue
+        Lw = ls_[0]
+        fw = iter_flow(ctx, f, Lw, {}, split=lambda k: k in ("(-1 == r)", "(r == -1)", "(r < 0)"),
+                       edge_tokens=lambda k, p: ["failed"] if (k in ("(-1 == r)", "(r == -1)", "(r < 0)") and p is True) else
+                       (["eintr"] if (re.match(r"^\((\*__errno_location\(\) == 4|4 == \*__errno_location\(\))\)$", k) and p is True) else None))
+        bad = False
+        seen_fail = False
+        for b in back_sources(Lw):
+            for st_ in (fw.OUT.get(b) or {}).values():
+                if "failed" in st_.may:
+                    seen_fail = True
+                    if "eintr" not in st_.must:
+                        bad = True
+        failing_exit = any(any("failed" in st_.may for st_ in e[3].values()) for e in fw.exits() if e[0] == "return")
+        ctx.check(not bad and failing_exit, "io-retries-only-EINTR:" + ("write" if any("const char" in (p_.get("type") or "") for p_ in f.params) else "read"), "passed_edge (per iteration)", f.loc(Lw["stmt"]),
+                  "a failed read/write is retried only for EINTR; every other error (EAGAIN from the socket time-outs included) ends the transfer",
+                  "wrapFull goes round again after a failed call for an error other than EINTR: a client that stops reading (or writing) keeps its "
+                  "handler thread, its descriptor and its slot for ever, and ~Stats() runs into its 5 s abort")
+    # the time-outs themselves are installed on every accepted connection before the handler starts
+    rsk = ctx.fn1("Oomd::Stats::runSocket")
+    so = [i for i in rsk.calls("setsockopt")]
+    opts = sorted(rsk.text(rsk.nodes[i]["args"][2]) for i in so if len(rsk.nodes[i].get("args", [])) >= 3)
+    ctx.check(any("20" == o or "SO_RCVTIMEO" in o for o in opts) and any("21" == o or "SO_SNDTIMEO" in o for o in opts) and len(so) >= 2, "socket-timeouts-installed", "call-site", rsk.loc(),
+              "receive and send time-outs are set on accepted connections", "SO_RCVTIMEO / SO_SNDTIMEO are not both set: " + str(opts))
     # ------------------------------------------------ reset keeps keys
     rsf = ctx.fn1("Oomd::Stats::reset")
     muts = []
